@@ -412,7 +412,7 @@ func runCodec(run *vkit.Run) {
 			run.Violation(fmt.Sprintf("C14 codec: %s shape=%s: %s", t.name, j.shape, f),
 				map[string]any{"case": caseID, "type": t.name, "shape": j.shape, "encoding_head": hexHead(enc), "encoding_len": len(enc)})
 		}
-		if j.rep == 0 && shapeWeight(j.shape) == 2 {
+		if j.rep == 0 && (j.shape == "n128/k760" && t.name == "gpbft.ECChain" || j.shape == "n128k760/d8192") {
 			run.Sample(map[string]any{"sub": "codec", "type": t.name, "shape": j.shape, "cbor_len": len(enc)})
 		}
 	}
